@@ -378,7 +378,19 @@ def r12_7_source_independence(ctx, rid='R12.7'):
             elif isinstance(x, ast.Call) and call_name(x) == 'getattr' and len(x.args) >= 2 and isinstance(x.args[1], ast.Constant) \
                     and x.args[1].value == 'name':
                 hit = x
+            # a mark's `buffer` / `pointer` exist only for str sources (PyYAML keeps the text for those): reading them tells the kinds apart
+            if isinstance(x, ast.Attribute) and x.attr in ('buffer', 'pointer') and isinstance(x.ctx, ast.Load) and 'mark' in norm(x.value).lower():
+                n += 1
+                r.fail('%s:source-kind-read:%s' % (modname, norm(x)[:40]), '%s:%d' % (m.path, x.lineno),
+                       'the load side reads `%s`: PyYAML fills a mark\'s buffer / pointer only when the source is a str, so the same document '
+                       'is treated differently when it comes from a file or stream' % norm(x)[:50])
+                continue
             if hit is not None:
+                # comparing a mark's name with the fixed label yatiml itself gives to the marks it makes up is not reading the source
+                par = getattr(hit, '_parent', None)
+                if isinstance(par, ast.Compare) and len(par.ops) == 1 and isinstance(par.ops[0], (ast.Eq, ast.NotEq)) \
+                        and any(isinstance(y, ast.Constant) and y.value == 'generated node' for y in [par.left] + par.comparators):
+                    continue
                 n += 1
                 r.fail('%s:source-name-read:%s' % (modname, norm(hit)[:40]), '%s:%d' % (m.path, hit.lineno),
                        'the load side reads a `name` (%s): the name of the stream / file the document came from influences the result, '
